@@ -76,6 +76,7 @@ def targets():
         defs = ['NV_C02'] + (['NV_LS_MAX=1000'] if cname.startswith('asga') else [])   # asga::lsearch_max_iters in [10, 1000]
         ts.append(Target(cname, [body(cname, tu, flt, **kw), common.fn_done()], H, replace=['solver_done'], defines=defs))
     ts.append(penalty_target())
+    ts += gs_targets()
     return ts
 
 
@@ -117,3 +118,56 @@ def penalty_target():
            stmt_hooks=[vt.stmt_hook], opaque=list(common.OPAQUE) + [r'penalty_function_t', r'unique_ptr<nano::solver_t|^(nano::)?rsolver_t$'],
            aggregates=['struct nv_tuple_b_f64'])
     return Target('penalty_minimize', [f, common.fn_done()], H, replace=['solver_done'], defines=['NV_C02'])
+
+
+GS_TYPES = [(r'^(nano::)?gsample::lsearch_t$', 'struct nv_gs_lsearch')] + TYPES
+GS_OPAQUE = list(common.OPAQUE) + [r'basic_string|^(nano::)?string_t$', r'^(nano::)?(gsample::)?(fixed_sampler_t|adaptive_sampler_t|identity_preconditioner_t|lbfgs_preconditioner_t|perturbation_t)$',
+                                   r'^(nano::)?(gsample::)?identity_preconditioner_t::storage_t$|^storage_t$']
+GS_MEMBERS = [(r'^sample\|.*gsample::', 'nv_gs_sample()'), (r'^function\|nano::solver_state_t', 'nv_state_function'),
+              (r'^gradient_test\|nano::solver_state_t\|#1', '@nondet'),
+              (r'^step\|.*gsample::lsearch_t', 'gs_lsearch_step({self}, {&0}, {&1}, {&2}, {&3})')] + MEMBERS
+GS_CALLS = [(r'^ctor\|(nano::)?gsample::lsearch_t\|', 'nv_gs_lsearch_make()')] + CALLS
+
+
+def gs_param_hook(P, n):
+    """parameter(basename + "name").value<T>() -> nv_param_name(): the parameter's own name is the string literal of the sum"""
+    import re as _re
+    import astload as _al
+    if n.get('kind') != 'CXXMemberCallExpr':
+        return None
+    me = n['inner'][0]
+    if me.get('kind') != 'MemberExpr' or me.get('name') not in ('value', 'value_pair'):
+        return None
+    obj = unwrap(me['inner'][0])
+    if obj.get('kind') != 'CXXMemberCallExpr' or obj['inner'][0].get('name') != 'parameter' or len(obj['inner']) < 2:
+        return None
+    lits = [x['value'].strip('"') for x in _al.walk(obj['inner'][1]) if x.get('kind') == 'StringLiteral']
+    if len(lits) != 1:
+        return None
+    nm = 'nv_param_' + _re.sub(r'\W+', '_', lits[0].split('::')[-1])
+    P.note(f'parameter(<prefix> + "{lits[0]}") -> {nm}()')
+    return f'{nm}()'
+
+
+def gs_fn(cname, tu, name, flt, self_struct, select=None):
+    vt = vectrack.VecTrack()
+    return Fn(cname, tu, name, flt=flt, select=select, self_struct=self_struct, types=GS_TYPES, calls=GS_CALLS, members=GS_MEMBERS,
+              hooks=[vgrad_hook, penalty_update_hook, vt.expr_hook] + list(common.HOOKS) + [gs_param_hook], stmt_hooks=[vt.stmt_hook], opaque=GS_OPAQUE,
+              aggregates=['struct nv_tuple_b_f64'])
+
+
+def gs_pick(d):
+    return 'fixed_sampler_t' in str(d.get('mangledName', '')) and 'identity_preconditioner_t' in str(d.get('mangledName', ''))
+
+
+def gs_targets():
+    step = lambda: gs_fn('gs_lsearch_step', 'src/solver/gsample.cpp', 'step', 'gsample::lsearch_t::step', 'struct nv_gs_lsearch', select=gs_pick_step)
+    body_ = gs_fn('gs_do_minimize', 'src/solver/gsample.cpp', 'do_minimize', 'base_solver_gs_t', 'struct nv_solver', select=gs_pick)
+    return [Target('gs_lsearch_step', [step()], H, defines=['NV_C02']),
+            Target('gs_do_minimize', [body_, step(), common.fn_done()], H, replace=['solver_done', 'gs_lsearch_step'], defines=['NV_C02'])]
+
+
+def gs_pick_step(d):
+    import astload
+    ta = astload.template_args(d)
+    return any('Matrix' in a or 'matrix' in a or 'storage' in a or 'Diagonal' in a for a in ta) and not any('tensor_t' in a for a in ta)
